@@ -132,6 +132,11 @@ struct Venue {
     /// consecutive windows (final quantities over that range); addressed as window index ALT + k
     #[serde(default)]
     alt_windows: Vec<Win>,
+    /// deep venues: before the first change the book already holds every EVEN price index below this bound on
+    /// both sides (quantity code 1), so snapshots carry dozens of levels and updates insert new levels deep
+    /// inside the book
+    #[serde(default)]
+    base_depth: u8,
 }
 
 #[derive(Debug, Clone, Copy, PartialEq, Eq, Serialize, Deserialize)]
@@ -195,6 +200,10 @@ impl Venue {
     /// venue book as of id `x`: every change with id <= x applied to the empty book
     fn state_at(&self, x: u64) -> BTreeMap<(bool, u8), u8> {
         let mut m = BTreeMap::new();
+        for p in (0..self.base_depth).step_by(2) {
+            m.insert((true, p), 1u8);
+            m.insert((false, p), 1u8);
+        }
         for c in &self.changes {
             if c.id > x {
                 break;
@@ -276,7 +285,7 @@ fn render_update(rule: Rule, market: &str, v: &Venue, w: &Win) -> String {
 
 fn render_unknown(rule: Rule, n: u64) -> String {
     let w = Win { first: n + 1, last: n + 2, pu: n, lo: 0, hi: 0 };
-    let v = Venue { market: 0, changes: vec![], windows: vec![], alt_windows: vec![] };
+    let v = Venue { market: 0, changes: vec![], windows: vec![], alt_windows: vec![], base_depth: 0 };
     render_update(rule, UNKNOWN_MARKET, &v, &w)
 }
 
@@ -1087,6 +1096,12 @@ fn gen_venue(rng: &mut Rng, rule: Rule, market: usize, n_win: usize) -> Venue {
     let mut changes = Vec::new();
     let mut windows = Vec::new();
     let mut present: BTreeSet<(bool, u8)> = BTreeSet::new();
+    let base_depth: u8 = if rng.chance(1, 4) { 40 } else { 0 };
+    let grid = GRID.max(base_depth);
+    for p in (0..base_depth).step_by(2) {
+        present.insert((true, p));
+        present.insert((false, p));
+    }
     let mut next_first = rng.range(1, 5) as u64;
     let mut pu = next_first.saturating_sub(1 + rng.below(3));
     for _ in 0..n_win {
@@ -1102,7 +1117,7 @@ fn gen_venue(rng: &mut Rng, rule: Rule, market: usize, n_win: usize) -> Venue {
         let lo = changes.len();
         for id in ids {
             let bid = rng.bool();
-            let p = rng.below(GRID as u64) as u8;
+            let p = rng.below(grid as u64) as u8;
             let q = if present.contains(&(bid, p)) {
                 if rng.chance(2, 5) { 0 } else { rng.range(1, 5) as u8 }
             } else if rng.chance(1, 7) {
@@ -1121,7 +1136,7 @@ fn gen_venue(rng: &mut Rng, rule: Rule, market: usize, n_win: usize) -> Venue {
         pu = last;
         next_first = last + 1 + if rule == Rule::Futures && rng.chance(1, 2) { rng.range(1, 3) as u64 } else { 0 };
     }
-    let mut v = Venue { market, changes, windows, alt_windows: vec![] };
+    let mut v = Venue { market, changes, windows, alt_windows: vec![], base_depth };
     for _ in 0..2 {
         let a = rng.usize_below(n_win - 1);
         let b = rng.range_u(a + 1, (a + 2).min(n_win - 1));
@@ -1318,7 +1333,7 @@ fn exhaustive_venue(rule: Rule, n_win: usize) -> Venue {
         windows.push(Win { first, last, pu, lo, hi: changes.len() });
         pu = last;
     }
-    let mut v = Venue { market: 0, changes, windows, alt_windows: vec![] };
+    let mut v = Venue { market: 0, changes, windows, alt_windows: vec![], base_depth: 0 };
     v.alt_windows = vec![v.merged(1, 2), v.merged(2, 3)];
     v
 }
